@@ -37,6 +37,7 @@ type FuncContract struct {
 	Key         string // RelString within package, e.g. (*gateImpl).SetCount
 	Requires    []Clause
 	Ensures     []Clause
+	Reachable   []Clause // "reachable [label] e": some path to the exit satisfies e (discharged by a model, like a vacuity cover)
 	Modifies    []*CExpr
 	HasModifies bool
 	Loops       map[string][]Clause // loop signature -> invariants
@@ -404,7 +405,7 @@ func (db *ContractDB) LoadFile(path, pkgPath string, assumed bool) error {
 		switch {
 		case curFn != nil:
 			switch word {
-			case "requires", "ensures":
+			case "requires", "ensures", "reachable":
 				if word == "assume" && !assumed {
 					return errf(l, "assume outside the assumed-contract file")
 				}
@@ -414,6 +415,8 @@ func (db *ContractDB) LoadFile(path, pkgPath string, assumed bool) error {
 				}
 				if word == "requires" {
 					curFn.Requires = append(curFn.Requires, c)
+				} else if word == "reachable" {
+					curFn.Reachable = append(curFn.Reachable, c)
 				} else {
 					curFn.Ensures = append(curFn.Ensures, c)
 				}
